@@ -431,6 +431,11 @@ func runR6(c *Ctx) {
 					}
 				case isIntIndexType(base.Type()) || isBoolIndex(base.Type()):
 					key := fnm + "|L-access " + accessPath(base)
+					if _, identity := r7Exempt[fnm]; identity {
+						nL++
+						c.okTrivial(key, p.instrPos(t), "builder of the identity index: row number and position coincide")
+						return
+					}
 					if bt, ok := t.Index.Type().Underlying().(*types.Basic); !ok || bt.Kind() != types.Int && bt.Kind() != types.UntypedInt {
 						c.bad(key, p.instrPos(t), fmt.Sprintf("row index accessed with a %s; logical row numbers are int", t.Index.Type()))
 						return
